@@ -173,16 +173,17 @@ theorem list_no_short_circuit (dones : Dones) (id nc nt : Nat) (t : Cb) (ts : Li
 
 /-- **Event callbacks: the child sees the trigger only.** `EveryNTimesteps` forwards training-start
 and locals, never rollout-start / rollout-end / training-end, and calls its child's `on_step` exactly
-when `num_timesteps - last_time_trigger ≥ n_steps`, handing the child's answer up. -/
+when `num_timesteps - last_time_trigger ≥ n_steps`, handing the child's answer up (`x.setP none`: the child's
+`parent` is this callback, which has no `best_mean_reward`). -/
 theorem event_child_sees_trigger_only (dones : Dones) (id n last nc nt : Nat) (ch : Cb) (x : Ext) (num : Nat) :
     ((Cb.everyN id n last nc nt ch).call dones .rolloutStart x).evs = [] ∧
     ((Cb.everyN id n last nc nt ch).call dones .rolloutEnd x).evs = [] ∧
     ((Cb.everyN id n last nc nt ch).call dones .trainingEnd x).evs = [] ∧
     ((Cb.everyN id n last nc nt ch).call dones (.trainingStart num) x).evs = (ch.call dones (.trainingStart num) x).evs ∧
     ((Cb.everyN id n last nc nt ch).call dones (.step num) x).evs =
-      (if last + n ≤ num then (ch.call dones (.step num) x).evs else []) ∧
+      (if last + n ≤ num then (ch.call dones (.step num) (x.setP none)).evs else []) ∧
     ((Cb.everyN id n last nc nt ch).call dones (.step num) x).ok =
-      (if last + n ≤ num then (ch.call dones (.step num) x).ok else true) := by
+      (if last + n ≤ num then (ch.call dones (.step num) (x.setP none)).ok else true) := by
   simp only [Cb.call, everyNDue]
   by_cases h : last + n ≤ num <;> simp [h]
 
@@ -210,24 +211,26 @@ theorem eval_freq_zero_never (id nc : Nat) (nums : List Nat) : everyKthCall id .
 
 /-- **Children of the evaluation callback**: at an evaluation with mean reward `m`, the on-new-best
 child is stepped iff `m` beats the best so far (then `best := m`), *before* the after-eval child; the
-after-eval child is stepped iff the on-new-best child did not answer `False`; the answer is the AND. -/
+after-eval child is stepped iff the on-new-best child did not answer `False`; the answer is the AND. Both
+children are stepped *after* `best_mean_reward` was updated (`setP`: what `self.parent.best_mean_reward` reads). -/
 theorem eval_children (dones : Dones) (id f nc nt : Nat) (best : Option Rat) (onBest after : Cb) (x : Ext) (num : Nat)
     (hdue : evalDue f (nc + 1) = true) :
     let m := x.pop.1
     let r := (Cb.eval id f nc nt best onBest after).call dones (.step num) x
-    let rb := onBest.call dones (.step num) x.pop.2
+    let rb := onBest.call dones (.step num) (x.pop.2.setP (some (some m)))
     (isNewBest best m = true → rb.ok = true →
       r.evs = ⟨id, .evalRun, nc + 1, num, 0, true⟩ :: (rb.evs ++ (after.call dones (.step num) rb.ext).evs) ∧
       r.ok = (after.call dones (.step num) rb.ext).ok) ∧
     (isNewBest best m = true → rb.ok = false →
       r.evs = ⟨id, .evalRun, nc + 1, num, 0, true⟩ :: rb.evs ∧ r.ok = false) ∧
     (isNewBest best m = false →
-      r.evs = ⟨id, .evalRun, nc + 1, num, 0, true⟩ :: (after.call dones (.step num) x.pop.2).evs ∧
-      r.ok = (after.call dones (.step num) x.pop.2).ok) ∧
+      r.evs = ⟨id, .evalRun, nc + 1, num, 0, true⟩ :: (after.call dones (.step num) (x.pop.2.setP (some best))).evs ∧
+      r.ok = (after.call dones (.step num) (x.pop.2.setP (some best))).ok) ∧
     r.cb.bests.head? = some (id, if isNewBest best m then some m else best) := by
   simp only [Cb.call, hdue, if_true]
   by_cases hb : isNewBest best x.pop.1 = true
-  · by_cases ho : (onBest.call dones (.step num) x.pop.2).ok = true <;> simp [hb, ho, Cb.bests]
+  · by_cases ho : (onBest.call dones (.step num) (x.pop.2.setP (some (some x.pop.1)))).ok = true <;>
+      simp [hb, ho, Cb.bests]
   · simp [hb, Cb.bests]
 
 /-- **The evaluation callback forwards training-start and locals to both children** (after-eval child
@@ -338,7 +341,96 @@ theorem new_best_child_sees_step_locals (dones : Dones) (id nc nt : Nat) (after 
   simp [Cb.call, evalDue, isNewBest]
   cases h : !st.contains (lnc + 1) <;> simp_all [Nat.mod_one]
 
+/-! ### Function callbacks, `callback=None`, and the `StopTraining…` callbacks -/
+
+/-- **A function callback is a user callback that only sees step events** (`ConvertCallback(f)`): for every
+call sequence its events are the `step` events of a recording leaf with the same stop points — same
+invocation count, same `num_timesteps`, same `locals`, same answers. -/
+theorem convert_callback_is_leaf (dones : Dones) (id : Nat) (st : List Nat) (n nt loc : Nat) (x : Ext) (cs : List Call) :
+    Cb.events dones (.fn id st n n nt loc) x cs =
+      (Cb.events dones (.leaf id st n nt loc) x cs).filter (fun e => e.kind == .step) := by
+  rw [Lemmas.events_eq_evsOf, Lemmas.events_eq_evsOf]
+  exact Lemmas.fn_is_leaf dones id st cs n nt loc x
+
+/-- **`callback=None`** (wrapped into `ConvertCallback(None)`): never asks to stop, records nothing. -/
+theorem no_callback_never_stops (dones : Dones) (c : Call) (x : Ext) :
+    (Cb.absent.call dones c x).ok = true ∧ (Cb.absent.call dones c x).evs = [] := by
+  simp [Cb.call]
+
+/-- **`StopTrainingOnRewardThreshold` as `callback_on_new_best`**: at an evaluation with mean reward `m`
+that is a new best, the child is stepped, reads the *updated* `best_mean_reward = m`, and training continues
+iff `m < reward_threshold` (and the after-eval child, which is then still called, agrees); when the evaluation
+is not a new best the child is not consulted at all. -/
+theorem reward_threshold_stops_iff (dones : Dones) (id f nc nt : Nat) (best : Option Rat) (tid : Nat) (thr : Rat)
+    (tnc tnt : Nat) (after : Cb) (x : Ext) (num : Nat) (hdue : evalDue f (nc + 1) = true) :
+    let m := x.pop.1
+    let r := (Cb.eval id f nc nt best (.rewardThr tid thr tnc tnt) after).call dones (.step num) x
+    (isNewBest best m = true →
+      (r.ok = true ↔ m < thr ∧ (after.call dones (.step num) (x.pop.2.setP (some (some m)))).ok = true) ∧
+      (⟨tid, .step, tnc + 1, num, 0, decide (m < thr)⟩ : Event) ∈ r.evs) ∧
+    (isNewBest best m = false → r.ok = (after.call dones (.step num) (x.pop.2.setP (some best))).ok) := by
+  simp only [Cb.call, hdue, if_true]
+  by_cases hb : isNewBest best x.pop.1 = true
+  · by_cases ht : x.pop.1 < thr <;> simp [hb, ht, belowThr, Ext.setP]
+  · simp [hb]
+
+/-- **`StopTrainingOnRewardThreshold` as `callback_after_eval`** (no on-new-best child): it is consulted at every
+evaluation and training continues iff the best mean reward so far — including this evaluation — is below the
+threshold. -/
+theorem reward_threshold_after_eval (dones : Dones) (id f nc nt : Nat) (best : Option Rat) (tid : Nat) (thr : Rat)
+    (tnc tnt : Nat) (x : Ext) (num : Nat) (hdue : evalDue f (nc + 1) = true) :
+    ((Cb.eval id f nc nt best .absent (.rewardThr tid thr tnc tnt)).call dones (.step num) x).ok =
+      belowThr (if isNewBest best x.pop.1 then some x.pop.1 else best) thr := by
+  simp only [Cb.call, hdue, if_true]
+  by_cases hb : isNewBest best x.pop.1 = true <;> simp [hb, Ext.setP]
+
+/-- **CallbackLists hand the `parent` of their position down**: what the `StopTrainingOn…` children read is the
+`best_mean_reward` of the EvalCallback above the lists, at any nesting depth and from the first `learn()` on
+(full statement since the fix `b8355fc`; before it a list nested directly inside a list handed `parent` to
+its children only from the second `learn()` on — finding K-C13-c). -/
+theorem nested_lists_pass_parent (dones : Dones) (i1 a1 b1 i2 a2 b2 tid : Nat) (thr : Rat) (tnc tnt : Nat) (x : Ext) (num : Nat) :
+    let r := (Cb.list i1 a1 b1 [.list i2 a2 b2 [.rewardThr tid thr tnc tnt]]).call dones (.step num) x
+    r.ok = belowThr (x.pbest.getD none) thr ∧ r.fail = x.pbest.isNone := by
+  simp [Cb.call, Cb.callL]
+
+/-- **`StopTrainingOnNoModelImprovement`**, for every history of evaluations: fed the sequence `bs` of its
+parent's `best_mean_reward` values (one per call), a fresh callback answers `False` at a call exactly when the
+trailing run of calls that were counted (`n_calls > min_evals`) and brought no improvement over the value seen at
+the previous call is longer than `max_no_improvement_evals` (`noImpSpec`, `streak`). -/
+theorem no_improvement_stops_after (dones : Dones) (id maxNo minEvals : Nat) (x : Ext) (bs : List (Option Rat)) :
+    feedBests dones (.noImprove id maxNo minEvals none 0 0 0) x bs = noImpSpec maxNo minEvals [] 0 none bs :=
+  Lemmas.noImp_feed dones id maxNo minEvals bs [] none 0 0 0 x (by simp [streak]) (fun _ => rfl)
+
+/-- **`StopTrainingOnMaxEpisodes` with any number of environments**: over `k` vectorised steps (each preceded
+by the `update_locals` of that step), its `i`-th answer is `True` iff the episodes finished so far in *all*
+sub-environments — `n_episodes` before plus the `dones` of steps `g0+1 … g0+i` — are fewer than
+`max_episodes · n_envs`; so it stops at the first step where that count reaches `max_episodes · n_envs`. -/
+theorem max_episodes_stops_at (dones : Dones) (id M n d : Nat) (k num g0 nEp nc nt loc : Nat) (x : Ext) :
+    Cb.events dones (.maxEp id M n nEp nc nt loc) x (segmentCalls num d g0 k) =
+      (List.range k).map (fun i => (⟨id, .step, nc + i + 1, num + (i + 1) * d, g0 + i + 1,
+        decide (nEp + cumDones dones g0 (i + 1) < M * n)⟩ : Event)) := by
+  rw [Lemmas.events_eq_evsOf]
+  exact Lemmas.maxEp_segment dones id M n d k num g0 nEp nc nt loc x
+
 /-! ### Non-vacuity: concrete, non-trivial instances -/
+
+/-- reward threshold 2 as on-new-best child: means 1, 3 → continues at the first evaluation, stops at the second -/
+example : Cb.events (fun _ => 0) (.eval 0 1 0 0 none (.rewardThr 1 2 0 0) .absent) { evals := [1, 3] }
+    [.step 1, .step 2] =
+    [⟨0, .evalRun, 1, 1, 0, true⟩, ⟨1, .step, 1, 1, 0, true⟩, ⟨0, .evalRun, 2, 2, 0, true⟩, ⟨1, .step, 2, 2, 0, false⟩] := by
+  decide
+
+/-- no-improvement (max 1, min 1) fed parent bests 1, 1, 1, 2, 2, 2: stops at the 3rd call and again at the 6th -/
+example : feedBests (fun _ => 0) (.noImprove 0 1 1 none 0 0 0) { evals := [] }
+    [some 1, some 1, some 1, some 2, some 2, some 2] = [true, true, false, true, true, false] := by decide
+
+/-- max-episodes 2 with 3 envs (budget 6): dones per step 2, 3, 1, 0 → answers True, True, False, False -/
+example : (Cb.events (fun g => [0, 2, 3, 1, 0].getD g 0) (.maxEp 0 2 3 0 0 0 0) { evals := [] }
+    (segmentCalls 0 3 0 4)).map (·.ret) = [true, true, false, false] := by decide
+
+/-- a bare function passed to two `learn` calls: a fresh ConvertCallback each time, the function's own count goes on -/
+example : ((Cb.fn 0 [] 3 3 9 3).freshRoot) = .fn 0 [] 3 0 0 0 := rfl
+
 
 /-- a nested tree with distinct ids and a leaf below two lists -/
 example : (Cb.list 0 0 0 [.leaf 1 [2] 0 0 0, .list 2 0 0 [.everyN 3 2 0 0 0 (.leaf 4 [] 0 0 0), .leaf 5 [] 0 0 0]]).ids.Nodup ∧
@@ -409,7 +501,7 @@ example : Cb.events (fun _ => 0) (.eval 0 1 0 0 none (.leaf 1 [] 0 0 0) (.leaf 2
      ⟨1, .step, 1, 1, 1, true⟩, ⟨2, .step, 1, 1, 1, true⟩] := by decide
 
 /-- StopTrainingOnMaxEpisodes as on-new-best child has `dones` in its locals: the code does not raise -/
-example : (Run.feedAll (fun _ => 0) { cb := .eval 0 1 0 0 none (.maxEp 1 2 0 0 0 0) .absent, ext := { evals := [1] } }
+example : (Run.feedAll (fun _ => 0) { cb := .eval 0 1 0 0 none (.maxEp 1 2 1 0 0 0 0) .absent, ext := { evals := [1] } }
     [.trainingStart 0, .updateLocals 1, .step 1]).fail = false := by decide
 
 /-- EveryNTimesteps(2) as on-new-best child with a stale trigger time 10: re-armed by the reset, fires at 3 -/
